@@ -77,8 +77,21 @@ def run(chk, repo, tier):
     if nv is None or vp is None:
         raise AnalysisError('nearest_valid_parameters / validate_parameters not found')
     cfg = CFG(nv.node)
-    stores = [n for n in cfg.nodes.values() if isinstance(n.ast, ast.Assign) and isinstance(n.ast.targets[0], ast.Subscript)
-              and 'nearest' in unparse(n.ast.targets[0].value)]
+    # writes into the dictionary that is returned: d[k] = v, d.update(..), d |= ..
+    returned = {unparse(r.value) for r in walk_no_nested(nv.node) if isinstance(r, ast.Return) and isinstance(r.value, ast.Name)}
+    if not returned:
+        returned = {'nearest'}
+
+    def writes_result(a_):
+        if isinstance(a_, ast.Assign) and isinstance(a_.targets[0], ast.Subscript):
+            return unparse(a_.targets[0].value) in returned
+        if isinstance(a_, ast.AugAssign) and isinstance(a_.op, ast.BitOr):
+            return unparse(a_.target) in returned
+        if isinstance(a_, ast.Expr) and isinstance(a_.value, ast.Call) and isinstance(a_.value.func, ast.Attribute) \
+                and a_.value.func.attr in ('update', '__setitem__', 'setdefault'):
+            return unparse(a_.value.func.value) in returned
+        return False
+    stores = [n for n in cfg.nodes.values() if n.kind == 'stmt' and n.ast is not None and writes_result(n.ast)]
     from sa import guards as G
     other_object = G.compare_atom(ast.IsNot, ast.Is)
     if not stores:
@@ -252,7 +265,21 @@ def run_v7_v9(chk, repo):
     nv = rv.methods.get('nearest_valid_parameters')
     if nv is None:
         raise AnalysisError('nearest_valid_parameters not found')
-    loops = [L for L in walk_no_nested(nv.node) if isinstance(L, ast.For) and '_dists' in unparse(L.iter)]
+    # the loop over the distributions: its iterable is (derived from) self._dists, directly or through local generators
+    from sa import reach as _reach
+    _cfg7 = CFG(nv.node)
+
+    def over_dists(L):
+        if '_dists' in unparse(L.iter):
+            return True
+        at = _reach.node_of(_cfg7, L)
+        if at is None:
+            at = next((n_.id for n_ in _cfg7.nodes.values() if n_.ast is L), None)
+        try:
+            return at is not None and '_dists' in unparse(_reach.expand_expr(_cfg7, at, L.iter))
+        except Exception:
+            return False
+    loops = [L for L in walk_no_nested(nv.node) if isinstance(L, ast.For) and over_dists(L)]
     if not loops:
         raise AnalysisError('V7: loop over the distributions not found in nearest_valid_parameters')
     for L in loops:
